@@ -31,6 +31,10 @@ pub struct Case {
     pub literal: bool,
     /// overall deadline: 0 none, 1 already expired, 2 100 ms (shorter than the race), 3 2 s (longer than the race), 4 500 ms (expires during the race)
     pub deadline: u8,
+    /// the IPv6 entries of the resolver output are IPv4-mapped IPv6 addresses (`::ffff:127.0.0.x`): IPv6 socket addresses like
+    /// any other as far as the order of the attempts goes
+    #[serde(default)]
+    pub mapped: bool,
 }
 
 pub struct C17;
@@ -194,17 +198,28 @@ fn run_once(case: &Case) -> Result<Measured, String> {
     // build the addresses
     let mut live: Vec<Live> = vec![];
     let mut last = 1u8;
+    let mut mapped_entry: Vec<bool> = vec![];
     for (i, (v6, beh)) in case.addrs.iter().enumerate() {
         last = last.wrapping_add(1).max(2);
+        let is_mapped = case.mapped && *v6;
+        let v6 = &(*v6 && !case.mapped);
         let l = match beh {
             Beh::Accept => Live::A(acceptor(*v6, last, i.to_string()).map_err(|e| format!("acceptor: {e}"))?),
             Beh::Refuse => Live::R(refuser(*v6, last).map_err(|e| format!("refuser: {e}"))?),
             Beh::BlackHole => Live::B(black_hole(*v6, last).map_err(|e| format!("black hole: {e}"))?),
             Beh::LateAccept => Live::L(late_acceptor(*v6, last, i.to_string(), Duration::from_millis(300)).map_err(|e| format!("late acceptor: {e}"))?),
         };
+        mapped_entry.push(is_mapped);
         live.push(l);
     }
-    let addrs: Vec<SocketAddr> = live.iter().map(|l| l.addr()).collect();
+    let addrs: Vec<SocketAddr> = live
+        .iter()
+        .zip(&mapped_entry)
+        .map(|(l, m)| match l.addr() {
+            SocketAddr::V4(a) if *m => SocketAddr::from((a.ip().to_ipv6_mapped(), a.port())),
+            a => a,
+        })
+        .collect();
     for l in &live {
         if let Live::L(l) = l {
             l.arm();
@@ -302,44 +317,44 @@ addresses per family. non-trivial = >= 2 addresses with >= 2 different behaviour
                         for (i, f) in fam.iter().enumerate() {
                             addrs.push((*f, b[i]));
                         }
-                        all.push(Case { addrs, connect_ms: 600, deadline: 0, literal: false });
+                        all.push(Case { addrs, connect_ms: 600, deadline: 0, literal: false, mapped: false });
                     }
                 }
             }
         }
         // a connect timeout shorter than the race interval: an attempt that times out is one failed attempt, not the end of the race
         for v6_first in [true, false] {
-            all.push(Case { addrs: vec![(v6_first, Beh::BlackHole), (!v6_first, Beh::Accept)], connect_ms: 100, deadline: 0, literal: false });
-            all.push(Case { addrs: vec![(v6_first, Beh::BlackHole), (v6_first, Beh::Accept)], connect_ms: 100, deadline: 0, literal: false });
-            all.push(Case { addrs: vec![(v6_first, Beh::BlackHole), (!v6_first, Beh::BlackHole), (v6_first, Beh::Accept)], connect_ms: 100, deadline: 0, literal: false });
-            all.push(Case { addrs: vec![(v6_first, Beh::BlackHole), (!v6_first, Beh::Refuse), (v6_first, Beh::BlackHole)], connect_ms: 100, deadline: 0, literal: false });
+            all.push(Case { addrs: vec![(v6_first, Beh::BlackHole), (!v6_first, Beh::Accept)], connect_ms: 100, deadline: 0, literal: false, mapped: false });
+            all.push(Case { addrs: vec![(v6_first, Beh::BlackHole), (v6_first, Beh::Accept)], connect_ms: 100, deadline: 0, literal: false, mapped: false });
+            all.push(Case { addrs: vec![(v6_first, Beh::BlackHole), (!v6_first, Beh::BlackHole), (v6_first, Beh::Accept)], connect_ms: 100, deadline: 0, literal: false, mapped: false });
+            all.push(Case { addrs: vec![(v6_first, Beh::BlackHole), (!v6_first, Beh::Refuse), (v6_first, Beh::BlackHole)], connect_ms: 100, deadline: 0, literal: false, mapped: false });
         }
         // a deadline closer than one race interval: a refusal still lets the next address be tried at once
         for v6_first in [true, false] {
-            all.push(Case { addrs: vec![(v6_first, Beh::Refuse), (!v6_first, Beh::Accept)], connect_ms: 600, deadline: 2, literal: false });
-            all.push(Case { addrs: vec![(v6_first, Beh::Refuse), (v6_first, Beh::Accept)], connect_ms: 600, deadline: 2, literal: false });
+            all.push(Case { addrs: vec![(v6_first, Beh::Refuse), (!v6_first, Beh::Accept)], connect_ms: 600, deadline: 2, literal: false, mapped: false });
+            all.push(Case { addrs: vec![(v6_first, Beh::Refuse), (v6_first, Beh::Accept)], connect_ms: 600, deadline: 2, literal: false, mapped: false });
         }
         // the largest representable connect timeout ("never give up on my account"): refusals and acceptances are as prompt as ever
         for v6_first in [true, false] {
-            all.push(Case { addrs: vec![(v6_first, Beh::Refuse), (!v6_first, Beh::Accept)], connect_ms: u16::MAX, deadline: 0, literal: false });
-            all.push(Case { addrs: vec![(v6_first, Beh::Refuse), (v6_first, Beh::Refuse), (!v6_first, Beh::Refuse)], connect_ms: u16::MAX, deadline: 0, literal: false });
-            all.push(Case { addrs: vec![(v6_first, Beh::Accept)], connect_ms: u16::MAX, deadline: 0, literal: true });
-            all.push(Case { addrs: vec![(v6_first, Beh::Accept), (!v6_first, Beh::Refuse)], connect_ms: u16::MAX, deadline: 3, literal: false });
+            all.push(Case { addrs: vec![(v6_first, Beh::Refuse), (!v6_first, Beh::Accept)], connect_ms: u16::MAX, deadline: 0, literal: false, mapped: false });
+            all.push(Case { addrs: vec![(v6_first, Beh::Refuse), (v6_first, Beh::Refuse), (!v6_first, Beh::Refuse)], connect_ms: u16::MAX, deadline: 0, literal: false, mapped: false });
+            all.push(Case { addrs: vec![(v6_first, Beh::Accept)], connect_ms: u16::MAX, deadline: 0, literal: true, mapped: false });
+            all.push(Case { addrs: vec![(v6_first, Beh::Accept), (!v6_first, Beh::Refuse)], connect_ms: u16::MAX, deadline: 3, literal: false, mapped: false });
         }
         // the URL names an address as an IP literal: the connect timeout (and the deadline) bound that single attempt as well
         for v6 in [true, false] {
             for beh in [Beh::Accept, Beh::Refuse, Beh::BlackHole] {
-                all.push(Case { addrs: vec![(v6, beh)], connect_ms: 600, deadline: 0, literal: true });
+                all.push(Case { addrs: vec![(v6, beh)], connect_ms: 600, deadline: 0, literal: true, mapped: false });
             }
-            all.push(Case { addrs: vec![(v6, Beh::BlackHole)], connect_ms: 1800, deadline: 4, literal: true });
+            all.push(Case { addrs: vec![(v6, Beh::BlackHole)], connect_ms: 1800, deadline: 4, literal: true, mapped: false });
         }
         // late acceptors: pairs and triples where a success can only arrive after the stagger
         for other in [Beh::Refuse, Beh::BlackHole, Beh::Accept] {
             for v6_late in [true, false] {
-                all.push(Case { addrs: vec![(v6_late, Beh::LateAccept), (!v6_late, other)], connect_ms: 1800, deadline: 0, literal: false });
-                all.push(Case { addrs: vec![(!v6_late, other), (v6_late, Beh::LateAccept)], connect_ms: 1800, deadline: 0, literal: false });
-                all.push(Case { addrs: vec![(v6_late, Beh::LateAccept), (v6_late, other), (!v6_late, Beh::Refuse)], connect_ms: 1800, deadline: 0, literal: false });
-                all.push(Case { addrs: vec![(v6_late, Beh::LateAccept), (!v6_late, other)], connect_ms: 600, deadline: 0, literal: false });
+                all.push(Case { addrs: vec![(v6_late, Beh::LateAccept), (!v6_late, other)], connect_ms: 1800, deadline: 0, literal: false, mapped: false });
+                all.push(Case { addrs: vec![(!v6_late, other), (v6_late, Beh::LateAccept)], connect_ms: 1800, deadline: 0, literal: false, mapped: false });
+                all.push(Case { addrs: vec![(v6_late, Beh::LateAccept), (v6_late, other), (!v6_late, Beh::Refuse)], connect_ms: 1800, deadline: 0, literal: false, mapped: false });
+                all.push(Case { addrs: vec![(v6_late, Beh::LateAccept), (!v6_late, other)], connect_ms: 600, deadline: 0, literal: false, mapped: false });
             }
         }
         // deadlines on a representative subset
@@ -351,12 +366,16 @@ addresses per family. non-trivial = >= 2 addresses with >= 2 different behaviour
                 }
             }
         }
+        // IPv4-mapped IPv6 addresses are IPv6 addresses: they take the IPv6 places in the order of the attempts
+        all.push(Case { addrs: vec![(false, Beh::BlackHole), (true, Beh::Accept)], connect_ms: 600, deadline: 0, literal: false, mapped: true });
+        all.push(Case { addrs: vec![(false, Beh::Accept), (true, Beh::Accept)], connect_ms: 600, deadline: 0, literal: false, mapped: true });
+        all.push(Case { addrs: vec![(false, Beh::Refuse), (false, Beh::BlackHole), (true, Beh::BlackHole), (true, Beh::Accept)], connect_ms: 900, deadline: 0, literal: false, mapped: true });
         let stride = if tier == Tier::Thorough { 1 } else { 9 };
         // the quick tier samples the product, but always runs the special families (short connect timeout, IP literal)
         Some(Box::new(
             all.into_iter()
                 .enumerate()
-                .filter(move |(i, c)| i % stride == 0 || c.literal || c.connect_ms < 200 || c.connect_ms == u16::MAX || (c.deadline == 2 && c.addrs.len() == 2 && c.addrs[0].1 == Beh::Refuse))
+                .filter(move |(i, c)| i % stride == 0 || c.literal || c.mapped || c.connect_ms < 200 || c.connect_ms == u16::MAX || (c.deadline == 2 && c.addrs.len() == 2 && c.addrs[0].1 == Beh::Refuse))
                 .map(|(_, c)| c)
                 .enumerate()
                 .filter(move |(i, _)| i % nworkers == worker)
@@ -370,8 +389,9 @@ addresses per family. non-trivial = >= 2 addresses with >= 2 different behaviour
             proptest::collection::vec((any::<bool>(), beh), 2..7),
             prop_oneof![2 => Just(100u16), 2 => Just(600u16), 2 => Just(900u16), 3 => Just(1800u16)],
             prop_oneof![5 => Just(0u8), 1 => Just(1u8), 1 => Just(2u8), 2 => Just(3u8), 2 => Just(4u8)],
+            prop::bool::weighted(0.2),
         )
-            .prop_map(|(mut addrs, connect_ms, deadline)| {
+            .prop_map(|(mut addrs, connect_ms, deadline, mapped)| {
                 // at most 3 per family
                 let mut n6 = 0;
                 let mut n4 = 0;
@@ -387,7 +407,7 @@ addresses per family. non-trivial = >= 2 addresses with >= 2 different behaviour
                 // with a 100 ms connect timeout every attempt boundary falls on a multiple of 100 ms, which is where the 100 ms
                 // and 500 ms deadlines lie: whether the next attempt still starts would be a coin toss, so no deadline then
                 let deadline = if connect_ms < 200 { 0 } else { deadline };
-                Case { addrs, connect_ms, deadline, literal: false }
+                Case { addrs, connect_ms, deadline, literal: false, mapped }
             })
             .boxed()
     }
@@ -440,6 +460,7 @@ addresses per family. non-trivial = >= 2 addresses with >= 2 different behaviour
         ctx.label_if(sim.bh_before_accept >= 1 && sim.any_accept, "black-hole-before-acceptor");
         ctx.label_if(!sim.any_accept, "no-acceptor");
         ctx.label_if(case.literal, "ip-literal-in-url");
+        ctx.label_if(case.mapped && case.addrs.iter().any(|a| a.0), "ipv4-mapped-ipv6-addresses");
         ctx.label_if(case.deadline != 0, "with-deadline");
         ctx.label_if(case.addrs.iter().any(|a| a.0) && case.addrs.iter().any(|a| !a.0), "both-families");
 
